@@ -15,6 +15,9 @@ mod p07;
 mod p08;
 mod p09;
 mod p10;
+#[cfg(feature = "crypto")]
+mod p11;
+#[cfg(feature = "crypto")]
 mod p13;
 mod zlib;
 mod zmodel;
@@ -43,6 +46,20 @@ fn main() {
         match p06::read_zonefile(&t, origin.as_deref(), true) {
             Ok(v) => for r in v { println!("{} class {} ttl {} type {} rdata {}", refimpl::wire::name_text(&r.0), r.1, r.2, r.3, ctx::hex(&r.4)); },
             Err(e) => println!("ERR {}", e),
+        }
+        return;
+    }
+    #[cfg(feature = "crypto")]
+    if prop == "TSIGDBG" {
+        // debugging aid: dverif TSIGDBG <hex message>
+        let m = ctx::unhex(&args[2]);
+        println!("ref parse: {:?}", refimpl::wire::parse_message(&m).map(|p| p.records.iter().map(|r| (refimpl::wire::name_text(&r.owner), r.rtype, r.section, r.raw_rdlen)).collect::<Vec<_>>()));
+        println!("ref find: {:?}", refimpl::tsig::find(&m));
+        println!("read_name@53: {:?}", refimpl::wire::read_name(&m, 53).map(|x| (x.0.len(), x.1, x.2)));
+        println!("prefix: {:?}", refimpl::wire::parse_message_prefix(&m).1);
+        let msg = domain::base::Message::from_octets(m.clone()).unwrap();
+        for r in msg.additional().unwrap() {
+            println!("lib additional: {:?}", r.map(|r| (format!("{}", r.owner()), r.rtype(), r.class())));
         }
         return;
     }
@@ -102,6 +119,9 @@ fn main() {
         "C08" => p08::run(&mut c),
         "C09" => p09::run(&mut c),
         "C10" => p10::run(&mut c),
+        #[cfg(feature = "crypto")]
+        "C11" => p11::run(&mut c),
+        #[cfg(feature = "crypto")]
         "C13" => p13::run(&mut c),
         "C17" => p17::run(&mut c),
         "C18" => p18::run(&mut c),
